@@ -261,6 +261,13 @@ def jump_unit(spec, exact, K, pre_tau=False, tag="C04", asserts=("walk",), lim_m
         c.prove(close(Tm[0], t0, c), "path starts at the initial time")
         Vn = m.vMat(x_in, t0)
         c.prove(np.asarray(Vn, dtype=object).shape == (S, E), "state-change matrix has shape (states, events)")
+        if np.asarray(Vn, dtype=object).shape == (S, E):
+            # the matrix the walk is measured against is the DECLARED one (net magnitudes per state and event, from the
+            # model definition), not merely whatever the model compiled: a wrong matrix makes every step "consistent"
+            envV = dict(zip(spec.states, x_in)); envV["t"] = t0; envV.update(zip(spec.params, th))
+            V_decl = [[expr.ev(e, envV) for e in row] for row in spec.V()]
+            c.prove(all_close(np.asarray(Vn, dtype=object), np.array(V_decl, dtype=object).reshape(S, E), c),
+                    "state-change matrix == declared net magnitudes")
         pure = m.pureOdeVector(x_in, t0) if not exact else None
         for k in range(1, n):
             c.prove(Tm[k] > Tm[k - 1], "times strictly increase (step %d)" % k)
@@ -388,6 +395,14 @@ def shape_specs():
     return out
 
 
+def chained_bundle_spec():
+    """one event bundling two transitions that meet in a state (E->J declared before S->E: E's net change is 0), plus a
+    single-transition event: the column of the bundled event needs accumulation over the transitions, in either order"""
+    Tr, Ev, M, v = expr.Tr, expr.Ev, expr.ModelSpec, expr.Var
+    return M("chained_bundle", ["S", "E", "J"], ["a", "b"],
+             [Ev(v("a") * v("S") * v("E"), [Tr("T", "E", "J"), Tr("T", "S", "E")]), Ev(v("b") * v("J"), [Tr("T", "J", "S")])])
+
+
 class C04(Check):
     id = "C04"
     level = "model_checking"
@@ -425,6 +440,8 @@ class C04(Check):
             us.append(jump_unit(s, False, min(K, 2)))
         us.append(jump_unit(expr.by_name("sir"), True, K))
         us.append(jump_unit(expr.by_name("sir_bd_multi"), True, 2))
+        us.append(jump_unit(chained_bundle_spec(), True, 2))
+        us.append(jump_unit(chained_bundle_spec(), False, 2))
         # typed initial state (int64 array): exact, adaptive tau-leap, and tau-leap on a model with explicit ODE terms
         sp22 = [s for s in shape_specs() if s.name == "shape_2x2"][0]
         us.append(jump_unit(sp22, True, 2, x0_kind="int64"))
